@@ -69,6 +69,20 @@ class trace(object):
                     out.append(p)
         return out
 
+    def produced(self, under=None):
+        """paths that exist now and were opened for writing, or were the target of a rename, during the trace
+        (a temporary file renamed into place counts as its final name)"""
+        out = set()
+        for e in self.events:
+            p = None
+            if e[0] == 'write':
+                p = os.path.abspath(e[1])
+            elif e[0] == 'rename':
+                p = os.path.abspath(e[2])
+            if p and os.path.exists(p) and (under is None or p.startswith(os.path.abspath(under) + os.sep)):
+                out.add(p)
+        return sorted(out)
+
     def removed(self, under=None):
         return [os.path.abspath(e[1]) for e in self.events if e[0] == 'remove' and
                 (under is None or os.path.abspath(e[1]).startswith(os.path.abspath(under) + os.sep))]
